@@ -73,6 +73,9 @@ structure Rel (c : Ctx) (leaf : Bytes) (annex : Option Bytes) (st : St) (s : Scr
   weight : st.ed.weightLeft = s.weightLeft
   leaf : st.ed.tapleafHash = leaf
   annex : st.ed.annexHash = annex
+  /-- legacy scripts without a decode error: the script code decodes to its end (it is a suffix of the script at
+      an instruction boundary) and is short -/
+  wf : c.sv = .base → (ScriptSpec.parse c.p).2 = false → (ScriptSpec.parse s.code).2 = false ∧ s.code.length < 2 ^ 32
 
 /-- outcomes agree: both succeed in related states, or both fail (a model panic inside the loop is a failure
     of evalScript; the spec names the error) -/
@@ -126,9 +129,9 @@ theorem stepAt_frame (T : TotalOracles) (c : Ctx) (hO : c.O = T.toOracles) (leaf
         Agree c leaf annex (execOp c st1 op.opcode idx pos (st1.exe.all id))
           (ScriptSpec.execOpcode (envOf T c leaf annex) s1 i (st1.exe.all id) pos)) :
     Agree c leaf annex (stepAt c st op idx pos) (ScriptSpec.execInstr (envOf T c leaf annex) s i pos) := by
-  obtain ⟨h1, h2, h3, h5, h6, h7, h8, h9, h10⟩ := hR
+  obtain ⟨h1, h2, h3, h5, h6, h7, h8, h9, h10, h11⟩ := hR
   obtain ⟨sstack, salt, scond, sop, scode, scsp, sw⟩ := s
-  simp only at h1 h2 h3 h5 h6 h7 h8 h9 h10
+  simp only at h1 h2 h3 h5 h6 h7 h8 h9 h10 h11
   subst h3 h5
   unfold stepAt ScriptSpec.execInstr
   simp only [hop, hdata, condOf_allTrue, envOf_f, envOf_sv,
@@ -165,13 +168,13 @@ theorem stepAt_frame (T : TotalOracles) (c : Ctx) (hO : c.O = T.toOracles) (leaf
     intro n
     apply tail_agree
     have hR1 : Rel c leaf annex { stack := st.stack, alt := st.alt, exe := st.exe, pbegin := st.pbegin, opcnt := n, ed := st.ed } ({ stack := sstack, alt := salt, cond := condOf st.exe, opCount := n, code := scode, codesepPos := scsp, weightLeft := sw } : ScriptSpec.State) :=
-      ⟨h1, h2, rfl, rfl, h6, h7, h8, h9, h10⟩
+      ⟨h1, h2, rfl, rfl, h6, h7, h8, h9, h10, h11⟩
     by_cases hpush : (st.exe.all id && decide (op.opcode ≤ 78)) = true
     · simp only [hpush, ↓reduceIte]
       by_cases hm : (has c.flags VER_MINDATA && !checkMinimalPush (op.push.getD []) op.opcode) = true
       · simp [hm, agree_fail, throw, throwThe, MonadExceptOf.throw]
       · simp only [hm, Bool.false_eq_true, ↓reduceIte, agree_ok, St.push, ScriptSpec.push, pure, Except.pure]
-        exact ⟨by simp [h1], h2, rfl, rfl, h6, h7, h8, h9, h10⟩
+        exact ⟨by simp [h1], h2, rfl, rfl, h6, h7, h8, h9, h10, h11⟩
     · simp only [hpush, Bool.false_eq_true, ↓reduceIte]
       by_cases hex : (st.exe.all id || decide (99 ≤ op.opcode) && decide (op.opcode ≤ 104)) = true
       · simp only [hex, ↓reduceIte]
